@@ -1,7 +1,7 @@
 SPECIFICATION Spec
 CONSTANTS
-  MaxOps = 14
-  UnitKinds = {"set32", "set64", "getp", "getq"}
+  MaxOps = 9
+  UnitKinds = {"set32", "set64", "getp", "getq", "tcopy", "mcopy", "tinit", "minit"}
   MaxPos = 3
   Sigs = {1, 2}
 INVARIANTS
